@@ -29,6 +29,10 @@ def _setup(h, ptype, n_kind='sym', positive=True):
     f = h.fn('f', ret='real')
     dec = h.call(h.get(P + ptype), cond, k=k, h=hh)
     func = h.call(dec, f)
+    # one configured decorator may be applied to several functions (penalize = quadratic_equality(c, k=..);
+    # pa = penalize(cost_a); pb = penalize(cost_b)): each result penalises ITS OWN decorated function
+    if h.choice('decorator_applied_to_another_function_afterwards', [False, True]):
+        h.call(dec, h.fn('another_f', ret='real'))
     if n_kind == 'sym':
         n = h.int('n')
         h.assume('n >= 0', n=n)
